@@ -2,6 +2,7 @@ package checks
 
 import (
 	"bytes"
+	"encoding/binary"
 	"fmt"
 	"runtime/debug"
 
@@ -83,6 +84,51 @@ func runC07(c *fw.Case) (o fw.Outcome) {
 	case 2, 3, 4:
 		msg = blockyBytes(r, n) // zero / all-ones words between other words, at every alignment
 		o.Tag("blocky-message")
+	}
+	if c.Idx%6 == 5 && n >= 16 {
+		// aimed field elements: one 64-bit block of the message is chosen so that the value 128-EIA1 multiplies by P (or,
+		// for the last block, what is multiplied by Q) is a special element of GF(2^64): a power of x, x^63 / P or x^63 /
+		// (a prefix of P) - the values at which a shift-and-add multiplier doubles exactly x^63 -, 0, 1, all ones. Random
+		// messages reach any given element with probability 2^-64 per block.
+		p, q := sec.EIA1Params(key[:], count, bearer, dir)
+		pinv := sec.GF64Inv(p)
+		var target uint64
+		e := uint(r.Intn(64))
+		switch r.Intn(8) {
+		case 0:
+			target = 1 << e // x^e
+		case 1:
+			target = sec.GF64Mul(1<<63, pinv) // times P gives x^63
+		case 2:
+			target = sec.GF64Mul(1<<e, pinv) // times P gives x^e
+		case 3: // a value with a PREFIX whose product with P is x^63 (MSB-first Horner over the bits of the value)
+			w := sec.GF64Mul(1<<63, pinv)
+			sh := uint(1 + r.Intn(8))
+			if w>>(64-sh) == 0 {
+				target = w<<sh | uint64(r.Intn(1<<sh))
+			} else {
+				target = w
+			}
+		case 4: // x^63 / (the top m bits of P): the accumulator of a multiplier that walks over the bits of P
+			m := uint(1 + r.Intn(63))
+			if pre := p >> (64 - m); pre != 0 {
+				target = sec.GF64Mul(1<<63, sec.GF64Inv(pre))
+			}
+		case 5:
+			target = ^uint64(0)
+		case 6:
+			target = sec.GF64Mul(1<<63, sec.GF64Inv(q))
+		default:
+			target = pick(r, uint64(0), 1, 0x1b, 1<<63, 1<<63|1)
+		}
+		nb := n / 8
+		j := r.Intn(nb) // block to aim
+		var eval uint64
+		for i := 0; i < j; i++ {
+			eval = sec.GF64Mul(eval^binary.BigEndian.Uint64(msg[8*i:]), p)
+		}
+		binary.BigEndian.PutUint64(msg[8*j:], eval^target)
+		o.Tag("aimed-field-element")
 	}
 	o.Input = kv("len", n, "key", hexs(key[:]), "count", fmt.Sprintf("%#x", count), "bearer", bearer, "dir", dir, "msg", hexs(clip(msg, 64)))
 	o.Digest = fw.Hash(key[:], msg, []byte{bearer, dir, byte(count), byte(count >> 8), byte(count >> 16), byte(count >> 24)})
